@@ -192,6 +192,9 @@ def point_args(P, key, b, msg_operand):
     return found, tpl
 
 
+TAIL_RESULT = re.compile(r"^std::result::Result<.*, failure::Error>$")
+
+
 def error_exits(P, key):
     """[(kind, bb, detail)]  kind: 'bail' (detail = (attributed, template)) | 'try' (detail = callee key or name) | 'err-agg'"""
     b = P.body[key]
@@ -204,6 +207,10 @@ def error_exits(P, key):
         if rp == "failure::err_msg":
             ok, tpl = point_args(P, key, b, t["args"][0])
             out.append(("bail", bb, (ok, tpl)))
+        elif t["dest"]["local"] == 0 and not t["dest"]["proj"] and TAIL_RESULT.search(P.tys(key, b["locals"][0]["ty"])) and \
+                not rp.endswith("from_residual") and P.norm_path(key, t["callee"].get("rpath")) in P.body:
+            # `f(..)` as the value of the function (no `?`): f's errors leave through here as they are
+            out.append(("try", bb, t))
         elif rp.endswith("from_residual"):
             # residual <- (Break payload of) Try::branch(x) <- x = result of a call
             locs, consts, calls, places = MU.backward_slice(b, t["args"][:1])
@@ -215,6 +222,33 @@ def error_exits(P, key):
                 calls_ = [d[2] for d in ds if d[0] == "call"]
                 if ds and len(calls_) == len(ds):
                     src = calls_ if len(calls_) > 1 else calls_[0]
+                # a consumer of an iterator chain (`try_for_each`, `collect::<Result<..>>`, `try_fold`, ...) raises no error of its own: what
+                # `?` hands on there are the errors of the closures given to the chain, which are judged at their own sites
+                if isinstance(src, dict) and re.search(r"^std::iter::Iterator::(try_for_each|try_fold|collect|sum|product|try_find|find_map)$", MU.callee_names(src)[1]):
+                    cr_ = P.crate_of[key]
+                    clos = set()
+                    cur = src
+                    for _ in range(12):
+                        for a_ in cur["args"][1:]:
+                            if "const" in a_ and "ty" in a_["const"] and cr_.types[a_["const"]["ty"]]["k"] == "closure":
+                                clos.add(cr_.types[a_["const"]["ty"]]["path"])
+                            pl_ = a_.get("move") or a_.get("copy")
+                            if pl_ is not None:
+                                r_ = ch.root(a_, through_calls=False)[0]
+                                for l_ in {pl_["local"], r_} - {None}:
+                                    if cr_.types[b["locals"][l_]["ty"]]["k"] == "closure":
+                                        clos.add(cr_.types[b["locals"][l_]["ty"]]["path"])
+                        r0 = ch.root(cur["args"][0], through_calls=False)[0] if cur["args"] else None
+                        d0 = ch.single_def(r0) if r0 is not None else None
+                        if d0 and d0[0] == "call" and re.search(r"^std::iter::Iterator::\w+$", MU.callee_names(d0[2])[1]):
+                            cur = d0[2]
+                        else:
+                            break
+                    clos = sorted(clos)
+                    if clos:
+                        src = [{"callee": {"rpath": pth, "path": pth, "rkind": "item"}, "args": []} for pth in clos]
+                        if len(src) == 1:
+                            src = src[0]
             out.append(("try", bb, src))
     return out
 
